@@ -378,6 +378,40 @@ func c03(c *ctx) {
 
 	// ------------------------------------------------------------------ R7
 	c.ruleBlockCacheComplete("R7")
+
+	// ------------------------------------------------------------------ R8
+	c.ruleLastCertificatePinned("R8")
+}
+
+// ruleLastCertificatePinned (C03.R8): several valid versions of the COMMIT certificate of height h-1 exist (different
+// signer bitmaps). BeginBlock of h reads "the last certificate" from the store (non-signer counters, reward percents), so
+// before block h is applied the version embedded in block h must have replaced the local one — in every mode (building,
+// validating, committing, syncing). Decided structurally: CheckAndSetLastCertificate cannot return nil after having
+// loaded the previous certificate without IndexQC(candidate.LastQuorumCertificate) having succeeded.
+func (c *ctx) ruleLastCertificatePinned(R string) {
+	r := c.r
+	r.Rule(R, "MPT", "the block's own last certificate is the one the state machine reads: CheckAndSetLastCertificate returns nil, after it compared the candidate's LastQuorumCertificate with the stored one, only if IndexQC(candidate.LastQuorumCertificate) succeeded — whatever the syncing flag says", 1)
+	fn := c.fn("controller.(*Controller).CheckAndSetLastCertificate")
+	indexQC := c.p.IfaceMethod("lib", "StoreI", "IndexQC")
+	loadHashes := c.fn("fsm.(*StateMachine).LoadCertificateHashesOnly")
+	if fn == nil || loadHashes == nil || !r.Anchor(indexQC != nil, "lib.StoreI.IndexQC") {
+		return
+	}
+	c.mpt(mptSpec{rule: R, fn: fn, events: evSet{"LoadCertificateHashesOnly": {loadHashes}},
+		extraEv: invokeEvent(map[*types.Func]string{indexQC: "IndexQC"}),
+		target:  tgtOkReturn("ok-return"),
+		reqs: func(string) []string {
+			return []string{"!seen:LoadCertificateHashesOnly|IndexQC.ok"}
+		}, minTarget: 1})
+	n := 0
+	instrs(fn, func(in ssa.Instruction) {
+		if cc := callCommon(in); cc != nil && cc.IsInvoke() && cc.Method == indexQC && len(cc.Args) > 0 {
+			n++
+			p := c.p.path(cc.Args[0])
+			r.Check(p == "$1.LastQuorumCertificate", R+"/indexed-value", c.p.Pos(in.Pos()), "IndexQC(candidate.LastQuorumCertificate)", "CheckAndSetLastCertificate indexes "+p+", not the certificate embedded in the candidate block")
+		}
+	})
+	r.Analysed["last_certificate_index_sites"] = n
 }
 
 // ruleBlockCacheComplete (C03.R7 / C11.R9): the process-wide block cache is read by consensus code through
@@ -719,6 +753,18 @@ func c08(c *ctx) {
 			c.fnQuiet("store.(*Store).Discard"):         "dropped with the block's working state",
 			c.fnQuiet("store.(*Store).IncreaseVersion"): "dropped when the version moves",
 		}, true)
+		// a Store under construction (Copy, NewReadOnly, the constructors) starts without a tree or with one it built itself:
+		// a tree handed over from another Store keeps answering Root() with that store's root whatever is written afterwards
+		for _, w := range c.p.fieldWrites(scF) {
+			if isTestFile(c.p, w.Instr.Pos()) || !isFreshAlloc(w.Base) {
+				continue
+			}
+			p := c.p.path(w.Instr.Val)
+			okv := isNilConst(w.Instr.Val) || allAlts(p, func(a string) bool {
+				return a == "nil" || strings.HasPrefix(a, "store.NewSMT(") || strings.HasPrefix(a, "store.NewDefaultSMT(")
+			})
+			r.Check(okv, "R4/Store.sc/initial/"+fnName(enclosing(origin(w.Fn))), c.p.Pos(w.Instr.Pos()), "a new Store starts with no tree or its own fresh tree", fnName(enclosing(origin(w.Fn)))+" builds a Store whose commitment tree is "+p+": a tree (and node cache) shared with or inherited from another Store makes Root() of the new store answer for the other store's writes")
+		}
 		discard := c.fn("store.(*Store).Discard")
 		reset := c.fn("store.(*Store).Reset")
 		if discard != nil && reset != nil {
